@@ -87,7 +87,7 @@ class ProtocolGraph:
         self.entry = entry
         self.models = models or Models(prog)
         self.ev = Evaluator(prog, self.models, log_on=log_on, no_inline=no_inline or (lambda f: False),
-                            hooks={(lambda ci: ci.name == BUS_CALL or ci.orig_name == BUS_CALL): (lambda ci: ("suspend",))})
+                            hooks={(lambda ci: ci.name == BUS_CALL or (ci.orig_name == BUS_CALL and (ci.fnj.get("resolved") or {}).get("path") not in prog.fns)): (lambda ci: ("suspend",))})
         self.ev.widen_loops = True   # loops that can spin without emitting (empty items) are widened inside a segment; visits reset at every node
         self.nodes = {}
         self.order = []
